@@ -237,6 +237,7 @@ RawConformKeeps ==
 
 (* ---------------- requests that must be refused ---------------- *)
 OnlyIterNeg == [x |-> "fn", f |-> "neg", args |-> <<A>>, only |-> "iter"]
+OnlyIterCmp == [p |-> "cmp", f |-> "lt", l |-> A, r |-> Lit(1), only |-> "iter"]
 IllCalls ==
     {UnCall(Calc("k", Ref("z"))), UnCall(Calc("a", Fn("neg", <<B>>))), UnCall(Calc("k", Lit(1))),
      UnCall(Proj({"a", "z"})), UnCall(SelRaw(Cmp("eq", Ref("z"), Lit(0)))),
@@ -244,7 +245,11 @@ IllCalls ==
      [f |-> "getitem", a |-> 0, b |-> 4, step |-> 2],
      [f |-> "chain", rhs |-> "X"], [f |-> "join", rhs |-> "X", p |-> PLit(TRUE)],
      [f |-> "join", rhs |-> "T2", p |-> Cmp("eq", Ref("z"), A)],
-     UnCall(Calc("k", OnlyIterNeg)), UnCall(Sort(<<Term(OnlyIterNeg, TRUE)>>))}
+     UnCall(Calc("k", OnlyIterNeg)), UnCall(Sort(<<Term(OnlyIterNeg, TRUE)>>)),
+     UnCall(SelRaw(Or(<<Cmp("eq", A, Lit(0)), OnlyIterCmp>>))),
+     UnCall(SelRaw(Not(Or(<<OnlyIterCmp, Cmp("eq", A, Lit(1))>>)))),
+     UnCall(SelRaw(In(A, SeqC(<<Lit(1), OnlyIterNeg>>)))),
+     [f |-> "join", rhs |-> "T2", p |-> Or(<<Cmp("eq", A, Lit(0)), OnlyIterCmp>>)]}
 
 \* refused requests = ill-formed ones + regular ones the model refuses (column
 \* errors after projections, and the documented row-order-loss error)
